@@ -157,6 +157,14 @@ class Ctx:
         os.makedirs(d, exist_ok=True)
         return d
 
+    def crumb(self, rec):
+        """breadcrumb: what the harness is about to execute on the real code (read after a crash)"""
+        try:
+            with open(os.path.join(self.scratch, "breadcrumb.json"), "w") as f:
+                json.dump(rec, f, default=str)
+        except Exception:
+            pass
+
     def elapsed(self):
         return time.time() - self.t0
 
